@@ -173,6 +173,44 @@ def r11_8(prog: Program, rep):
            "the running SHA-1: an undamaged index fails with ChecksumMismatch", back[0].lineno if back else r.node.lineno)
 
 
+def r11_9(prog: Program, rep):
+    """THE LOADER STORES EXACT KEYS.  Index.__setitem__ (and update(), which goes through it) redirects a name to the key of an
+    earlier entry with the same normalised form - a service for LOOKUPS under core.ignorecase / core.precomposeunicode.  While the
+    file is being loaded that redirection merges two paths the file holds separately (README, readme): Index.read therefore never
+    hands the parsed entries to a redirecting mutator; it stores them under their own names."""
+    m = prog.module(IDX)
+    rd_ = m.funcs.get("Index.read")
+    si = m.funcs.get("Index.__setitem__")
+    if rd_ is None or si is None:
+        raise AnalysisError("Index.read / Index.__setitem__ not found")
+    redirecting = {"__setitem__"} if any(isinstance(c, ast.Call) and callee_name(c) == "canonical_path" for c in ast.walk(si.node)) else set()
+    # methods of Index that store through a redirecting mutator (self[...] = v, self.__setitem__, or another such method)
+    changed = bool(redirecting)
+    while changed:
+        changed = False
+        for q, f in m.funcs.items():
+            if not q.startswith("Index.") or "#" in q or f.name in redirecting or f.name == "read":
+                continue
+            uses = any((isinstance(x, ast.Subscript) and isinstance(x.ctx, ast.Store) and isinstance(x.value, ast.Name) and x.value.id == "self")
+                       or (isinstance(x, ast.Call) and isinstance(x.func, ast.Attribute) and isinstance(x.func.value, ast.Name) and x.func.value.id == "self"
+                           and x.func.attr in redirecting) for x in ast.walk(f.node))
+            if uses:
+                redirecting.add(f.name)
+                changed = True
+    parsed = {t.id for x in ast.walk(rd_.node) if isinstance(x, ast.Assign) and isinstance(x.value, ast.Call) and "read_index" in (callee_name(x.value) or "")
+              for tt in x.targets for t in (tt.elts if isinstance(tt, ast.Tuple) else [tt]) if isinstance(t, ast.Name)}
+    if not parsed:
+        raise AnalysisError("Index.read: the parsed entries not found")
+    bad = [x for x in ast.walk(rd_.node) if
+           (isinstance(x, ast.Call) and isinstance(x.func, ast.Attribute) and isinstance(x.func.value, ast.Name) and x.func.value.id == "self"
+            and x.func.attr in redirecting) or
+           (redirecting and isinstance(x, ast.Subscript) and isinstance(x.ctx, ast.Store) and isinstance(x.value, ast.Name) and x.value.id == "self")]
+    rep.ob("R11.9", IDX, rd_.qual, "parsed entries are stored under their own names, not through a mutator that redirects to a normalised key", not bad,
+           f"`{norm(bad[0], 60)}` goes through canonical_path: with core.ignorecase / core.precomposeunicode the second of two paths with the same "
+           "normalised form overwrites the first while the file is loaded - one entry vanishes, the other carries its blob, and the next write "
+           "records that" if bad else "", bad[0].lineno if bad else rd_.node.lineno)
+
+
 def run(prog: Program, rep, tier="quick"):
     rep.rule("R11.6", "SAME-SOURCE: (sec, nsec) of ctime/mtime are quotient and remainder of one integer nanosecond value")
     rep.rule("R11.1", "TABLE-AGREE: reader and writer struct formats, read sizes, padding and extended-flag handling agree")
@@ -180,6 +218,8 @@ def run(prog: Program, rep, tier="quick"):
     rep.rule("R11.7", "trailer acceptance predicate of SHA1Reader.check_sha evaluated over a finite abstraction (4 trailer classes x allow_empty)")
     r11_7(prog, rep)
     r11_8(prog, rep)
+    r11_9(prog, rep)
+    rep.rule("R11.9", "the index loader stores exact keys: parsed entries never pass the mutator that redirects to a normalised key")
     rep.rule("R11.8", "cache times masked to 32 bits; the extension loop never un-reads checksummed bytes")
     rep.rule("R11.3", "checksum verified on read, written (or zeroed under skipHash) on every normal path")
     rep.rule("R11.5", "SIBLINGS-AGREE: index v4 prefix-length varint codec == pack OFS_DELTA offset varint codec (git's varint.c)")
